@@ -10,21 +10,27 @@ SPEC = {
     "extra": [e2e.redefinition_cycles],
     "rule": "histories of 4..13 steps over 2..5 exporters (4-octet, IPv4-mapped, IPv6) and template ids incl. 65535: announce / "
             "re-announce with a different definition / data for the latest definition / data for a never-announced id; one history in "
-            "three uses a pair of (exporter,id) keys found by birthday search to collide under FNV-1; non-trivial = records decoded; "
+            "three uses a pair of (exporter,id) keys found by birthday search to collide under the FNV-1 hash that picks the shard "
+            "(4-octet, IPv4-mapped and IPv6 addresses, also mixed): since the K1 repair (F26) these pairs are judged like any other "
+            "(a failure on one of them is `fail:hash-collision ...`, matched by no known finding); corpus/C04/*-hist--K1-hash-collision.txt "
+            "(the pair of C04.hash_collision_counterexample / colliding_pair_separate) runs first; non-trivial = records decoded; "
             "distinct = distinct case line",
-    "assumptions": ["hash/fnv and map semantics as transcribed (fnv1, cacheKey, association list keyed by the hash)",
+    "assumptions": ["hash/fnv, hex.EncodeToString and map semantics as transcribed (fnv1, keyText, association list keyed by (shard, key text)); "
+                    "the statements of getShard / insert / retrieve, the map type and the absence of any other use of the keys are regenerated "
+                    "facts (C04.gen_cache_key, gen_cache_key_use, gen_cache_calls)",
                     "the theorems and the *-hist kinds are about the sequential Decode API (concurrent cache use is C10); the order in "
                     "which the worker pool decodes consecutive datagrams of one exporter is observed by the redefinition cycles (K5)"],
 }
 META = {
-    "text": "Lean: the concrete hash-keyed cache refines the abstract map (exporter,id) -> latest template for every history whose keys do "
-            "not collide (refinement_partial, by induction over the history, from the map law lookup_insert); other exporters never "
-            "influence a lookup absent a collision; unknown template => no record, error (both decoder models); the decoders use exactly "
-            "this lookup. The unconditional statement is false: hash_collision_counterexample (decide) is finding K1, re-demonstrated on "
-            "the real ipfix and netflow9 caches in every run. Correspondence: histories incl. searched colliding pairs, model vs real "
-            "Decode, plus a reference-map oracle.",
-    "ref": "DESIGN.md §6 C04, §8 K1 K5",
-    "note": "Partial: hypothesis NoCollision (K1 is a known finding, matched only by failures whose keys the harness has itself "
-            "verified to collide). Trusted: Lean kernel, model of FNV-1/map, harness.",
-    "technique": "Lean 4 refinement proof (hash-keyed cache -> abstract map) + differential correspondence on generated histories with adversarial hash collisions",
+    "text": "Lean: the concrete cache (32 shard maps keyed by the hex text of addr||id, shard picked by FNV-1) refines the abstract map "
+            "(exporter,id) -> latest template for EVERY history of announcements with 16-bit ids (refinement, refinement_empty: by induction "
+            "over the history from the map law lookup_insert and cacheKey_inj, the key determines the pair); an announcement by another "
+            "exporter never changes a lookup (other_exporter_no_influence, no hypothesis on ids or hashes); unknown template => no record, "
+            "error (both decoder models); the decoders use exactly this lookup. For the OLD key function (the hash alone, oldCacheKey) the "
+            "statement is false: hash_collision_counterexample (decide), K1; colliding_pair_separate shows the same pair in two entries of "
+            "one shard now. Correspondence: histories incl. searched colliding pairs, model vs real Decode, plus a reference-map oracle.",
+    "ref": "DESIGN.md §6 C04, §8 K1/F26 K5",
+    "note": "K1 is repaired (F26): no hypothesis about the hash is left; Ids16 (template ids < 65536) is the uint16 type of the code. "
+            "Trusted: Lean kernel, model of FNV-1 / hex / map, harness.",
+    "technique": "Lean 4 refinement proof (sharded string-keyed cache -> abstract map, key injectivity) + differential correspondence on generated histories with adversarial hash collisions",
 }
